@@ -3949,3 +3949,171 @@ func c01R18(c *Ctx, r *Report) {
 	}
 	r.Floor(rule, n, 1, "writes of Symbol.Captured")
 }
+
+// ---- C13.R20 / C13.R21: a phi names the block its value arrives from ----------------------------------------------
+
+func init() {
+	lateInits = append(lateInits, func() {
+		props["C13"].Quick = append(props["C13"].Quick, c13R20, c13R21)
+		props["C01"].Quick = append(props["C01"].Quick, c13R20, c13R21)
+		props["C13"].Explanation += " (R20) in MIR generation the predecessor of a phi operand whose value was produced by lowering a sub-expression or a block is the builder's current block after that lowering, not the block that was current before it. (R21) the QBE emitter names phi predecessors through a placeholder that is resolved once the function is emitted, and every label under which an instruction emitter continues a block is registered as that block's exit (emitContinuationLabel); labels emitted directly are dead ends (panic, ret)."
+	})
+}
+
+func c13R20(c *Ctx, r *Report) {
+	const rule = "C13.R20"
+	r.Describe(rule, "mir/gen: for every mir.PhiIncoming{Pred: V.ID}, V is assigned from b.current, or no lowerExpr/lowerBlock/lowerValueExpr call lies between b.setBlock(V) and the next setBlock")
+	n := 0
+	lowering := map[string]bool{"lowerExpr": true, "lowerBlock": true, "lowerValueExpr": true, "lowerCall": true, "lowerNode": true}
+	for _, fn := range c.AllFns(pkgMIRGen) {
+		info := fn.Info()
+		defs := localDefs(fn)
+		var incomings []*ast.CompositeLit
+		ast.Inspect(fn.Decl.Body, func(x ast.Node) bool {
+			if cl, ok := x.(*ast.CompositeLit); ok {
+				if nt := namedOf(info.TypeOf(cl)); nt != nil && nt.Obj().Name() == "PhiIncoming" {
+					incomings = append(incomings, cl)
+				}
+			}
+			return true
+		})
+		if len(incomings) == 0 {
+			continue
+		}
+		// textual order of the setBlock calls and the lowering calls
+		type ev struct {
+			pos    token.Pos
+			set    types.Object
+			isLow  bool
+			lowStr string
+		}
+		var evs []ev
+		for _, cl := range callsIn(fn.Decl.Body, false) {
+			f := callee(info, cl)
+			if f == nil {
+				continue
+			}
+			if f.Name() == "setBlock" && len(cl.Args) == 1 {
+				evs = append(evs, ev{pos: cl.Pos(), set: objOf(info, cl.Args[0])})
+			} else if lowering[f.Name()] {
+				evs = append(evs, ev{pos: cl.Pos(), isLow: true, lowStr: exprStr(cl)})
+			}
+		}
+		sort.Slice(evs, func(i, j int) bool { return evs[i].pos < evs[j].pos })
+		for _, inc := range incomings {
+			for _, e := range inc.Elts {
+				kv, ok := e.(*ast.KeyValueExpr)
+				if !ok || exprStr(kv.Key) != "Pred" {
+					continue
+				}
+				sel, ok := ast.Unparen(kv.Value).(*ast.SelectorExpr)
+				if !ok || sel.Sel.Name != "ID" {
+					continue
+				}
+				v := objOf(info, sel.X)
+				if v == nil {
+					continue
+				}
+				n++
+				fromCurrent := false
+				for _, d := range defs[v] {
+					if s := exprStr(d); s == "b.current" {
+						fromCurrent = true
+					}
+				}
+				bad := ""
+				if !fromCurrent {
+					active := false
+					for _, e := range evs {
+						if e.pos > inc.Pos() {
+							break
+						}
+						if !e.isLow {
+							active = e.set == v
+							continue
+						}
+						if active {
+							bad = e.lowStr
+						}
+					}
+				}
+				r.Check(bad == "", rule, fn.Name(), "phi operand from "+v.Name()+" names the block the value arrives from", c.pos(inc.Pos()),
+					"the phi names the block "+v.Name()+" as predecessor although "+bad+" was lowered in it afterwards and may have moved to another block: `div(1, 0) catch e { if e == \"x\" { … } io::Println(e); } -1` is rejected by QBE (\"predecessors not matched in phi\")")
+			}
+		}
+	}
+	r.Floor(rule, n, 4, "phi operands in mir/gen")
+}
+
+func c13R21(c *Ctx, r *Report) {
+	const rule = "C13.R21"
+	r.Describe(rule, "qbe: emitPhi does not call blockName for its predecessors (they are placeholders resolved by a function that reads blockExit); an emitLine of a `@label` in an instruction emitter is followed within the same statement list by the emission of `ret`, or goes through emitContinuationLabel")
+	phi := c.LookupFn(pkgQBE, "(*Generator).emitPhi")
+	bn := c.LookupFn(pkgQBE, "(*Generator).blockName")
+	cont := c.LookupFn(pkgQBE, "(*Generator).emitContinuationLabel")
+	emitLine := c.LookupFn(pkgQBE, "(*Generator).emitLine")
+	if !r.Anchor(rule, phi != nil && bn != nil && emitLine != nil, "qbe emitPhi / blockName / emitLine") {
+		return
+	}
+	r.Check(cont != nil && nodeCalls(phi.Info(), phi.Decl.Body, bn.Obj) == nil, rule, phi.Name(), "phi predecessors are resolved after the function is emitted", c.pos(phi.Decl.Pos()),
+		"the phi names the MIR block of its predecessor, but an inline run-time check may have continued that block under another label: `flag && [10, 20, 30][one()] == 20` is rejected by QBE (\"predecessors not matched in phi\")")
+	if cont == nil {
+		return
+	}
+	n := 0
+	for _, fn := range c.AllFns(pkgQBE) {
+		if fn.Obj == cont.Obj || fn.Obj.Name() == "emitBlock" || fn.Obj.Name() == "emitFunction" {
+			continue
+		}
+		info := fn.Info()
+		ast.Inspect(fn.Decl.Body, func(x ast.Node) bool {
+			var list []ast.Stmt
+			switch b := x.(type) {
+			case *ast.BlockStmt:
+				list = b.List
+			case *ast.CaseClause:
+				list = b.Body
+			default:
+				return true
+			}
+			for i, st := range list {
+				es, ok := st.(*ast.ExprStmt)
+				if !ok {
+					continue
+				}
+				cl, ok := es.X.(*ast.CallExpr)
+				if !ok || !isCallTo(info, cl, emitLine.Obj) || len(cl.Args) != 1 {
+					continue
+				}
+				isLabel := false
+				ast.Inspect(cl.Args[0], func(y ast.Node) bool {
+					if bl, ok := y.(*ast.BasicLit); ok && bl.Kind == token.STRING && strings.HasPrefix(strings.Trim(bl.Value, "\"`"), "@") {
+						isLabel = true
+					}
+					return true
+				})
+				if !isLabel {
+					continue
+				}
+				n++
+				deadEnd := false
+				for j := i + 1; j < len(list) && j <= i+5; j++ {
+					if es2, ok := list[j].(*ast.ExprStmt); ok {
+						if cl2, ok := es2.X.(*ast.CallExpr); ok && isCallTo(info, cl2, emitLine.Obj) && len(cl2.Args) == 1 {
+							if v := constOf(info, cl2.Args[0]); v != nil && v.Kind() == constant.String && strings.HasPrefix(constant.StringVal(v), "ret") {
+								deadEnd = true
+							}
+						}
+						if cl2, ok := es2.X.(*ast.CallExpr); ok && isCallTo(info, cl2, cont.Obj) {
+							break
+						}
+					}
+				}
+				r.Check(deadEnd, rule, fn.Name(), "inline label "+exprStr(cl.Args[0])+" is a dead end", c.pos(cl.Pos()),
+					"an instruction emitter opens a label and goes on emitting the block under it without registering it: phis in the successors name a block that does not jump to them")
+			}
+			return true
+		})
+	}
+	r.Floor(rule, n, 3, "inline labels in instruction emitters")
+}
